@@ -198,7 +198,9 @@ async def byte_case(ctx, version: str | None, chunks: list[bytes], eof: bool, vi
                 ctx.violation(key, f"{info['class']}({exc!s:.80}) from listen() over a stream transport, raised in "
                                    f"{info.get('raised_in')}", case)
                 break
-            if type(exc).__name__ in ("TransportReadError", "TransportFailedError", "TransportError"):
+            from aiomysensors.exceptions import TransportError
+
+            if isinstance(exc, TransportError):
                 active_reader = getattr(transport, "reader", None) or reader
                 if active_reader.at_eof() or "LimitOverrun" in repr(exc.__cause__):
                     stalled += 1
